@@ -1,4 +1,6 @@
 # C16 - Declarative codec: encode and decode are mutually inverse and length-exact
+import copy
+
 from hypothesis import strategies as st
 
 from harness import tk  # noqa: F401
@@ -17,7 +19,7 @@ RULE = ("protocol definitions are generated as trees (programs) and instantiated
         "== v; re-encoding a decoding of the octets with randomised spare bits/octets gives the canonical octets; with "
         "check_len=False and trailing junk exactly len(encoding) octets are consumed; every cut before the flexible tail, "
         "trailing octets under check_len, a flipped bit in a fixed-value bit-field -> DecodeError; out-of-range integer, "
-        "wrong-size buffer -> EncodeError; nothing else escapes; an over-wide bit-field value is truncated to its width; the same "
+        "wrong-size buffer (one too long, one too short, empty; top level, nested envelope, sequence item) -> EncodeError; nothing else escapes; an over-wide bit-field value is truncated to its width; the same "
         "Envelope object encoded again after a validity-preserving change made in place at the deepest nesting level (top-level dict "
         "untouched where possible) gives the layout of the current content. "
         "Non-trivial: definition with a multi-octet or LSB-first BitFieldSet and a nesting or callback-driven field.")
@@ -482,7 +484,6 @@ def oracle(case):
                 raise Violation("c16:short-input-other-exception", "%r at cut %d" % (e, cut))
             raise Violation("c16:short-input-accepted", "prefix of %d of %d octets decoded (check_len=%s)" % (cut, len(ref), cl_))
     # 5b. slack inside a length-prefixed nested envelope (also inside sequence items): the nested envelope checks its length
-    import copy
     f2, v2 = copy.deepcopy(fields), copy.deepcopy(vals)
     if add_slack(f2, v2, 1 + case["pick"] % 3):
         try:
@@ -525,14 +526,54 @@ def oracle(case):
             break
     for f in fields:
         if f["k"] == "buf" and f.get("len") and codec_ref.present(f, vals):
-            env.c = dict(vals)
-            env.c[f["name"]] = bytes(f["len"] + 1)
-            try:
-                env.to_bytes()
-                raise Violation("c16:wrong-size-buffer-encoded", "%d octets in a %d-octet Buf" % (f["len"] + 1, f["len"]))
-            except codec.EncodeError:
-                pass
+            for n_ in sorted({f["len"] + 1, f["len"] - 1, 0}):
+                env.c = dict(vals)
+                env.c[f["name"]] = bytes([0x5a]) * n_
+                try:
+                    env.to_bytes()
+                    raise Violation("c16:wrong-size-buffer-encoded", "%d octets in a %d-octet Buf (top level)" % (n_, f["len"]))
+                except codec.EncodeError:
+                    pass
             break
+    for f in fields:
+        # ... and inside the first nested envelope / first item of the first non-empty sequence
+        if f["k"] == "env" and codec_ref.present(f, vals) and isinstance(vals.get(f["name"]), dict):
+            def nested_vals(name, v, f=f):
+                d = copy.deepcopy(vals)
+                if name is not None:
+                    d[f["name"]][name] = v
+                return d
+            inner = vals[f["name"]]
+            if any(x["k"] == "buf" and x.get("len") and codec_ref.present(x, inner) for x in f["fields"]):
+                for x in f["fields"]:
+                    if x["k"] == "buf" and x.get("len") and codec_ref.present(x, inner):
+                        for n_ in sorted({x["len"] + 1, x["len"] - 1, 0}):
+                            env.c = nested_vals(x["name"], bytes([0x5a]) * n_)
+                            try:
+                                env.to_bytes()
+                                raise Violation("c16:wrong-size-buffer-encoded", "%d octets in a %d-octet Buf (nested envelope)" % (n_, x["len"]))
+                            except codec.EncodeError:
+                                pass
+                        break
+                break
+        if f["k"] == "seq" and codec_ref.present(f, vals) and vals.get(f["name"]):
+            item0 = vals[f["name"]][0]
+            hit = False
+            for x in f["item"]:
+                if x["k"] == "buf" and x.get("len") and codec_ref.present(x, item0):
+                    for n_ in sorted({x["len"] + 1, x["len"] - 1, 0}):
+                        d = copy.deepcopy(vals)
+                        d[f["name"]][0][x["name"]] = bytes([0x5a]) * n_
+                        env.c = d
+                        try:
+                            env.to_bytes()
+                            raise Violation("c16:wrong-size-buffer-encoded", "%d octets in a %d-octet Buf (sequence item)" % (n_, x["len"]))
+                        except codec.EncodeError:
+                            pass
+                    hit = True
+                    break
+            if hit:
+                break
     # 8. over-wide bit-field value
     for f in fields:
         if f["k"] == "bits":
